@@ -102,6 +102,27 @@ def faults(spec):
                         mods = s["channels"][ci]["samples"][si]["modifiers"]
                         mods.insert(mi + 1 if pos == "after" else mi, d)
                         yield ("c_dup_modifier", t), s
+                # (c') the same, on a *later carrier* of a modifier shared between samples: the modifier is first shared (legally) with
+                # every other sample in turn, and the duplicate with different data goes on whichever carrier comes second in spec order
+                if t in ("normsys", "histosys"):
+                    for cj, chj in enumerate(spec["channels"]):
+                        for sj, smj in enumerate(chj["samples"]):
+                            if (cj, sj) == (ci, si) or any((x["name"], x["type"]) == (m["name"], t) for x in smj["modifiers"]):
+                                continue
+                            s = cp()
+                            shared = copy.deepcopy(m)
+                            dup = copy.deepcopy(m)
+                            if t == "normsys":
+                                dup["data"] = {"lo": 0.5, "hi": 1.5}
+                            else:
+                                shared["data"] = {"lo_data": [x * 0.8 for x in smj["data"]], "hi_data": [x * 1.2 for x in smj["data"]]}
+                            later = max((ci, si), (cj, sj))
+                            tgt = s["channels"][later[0]]["samples"][later[1]]
+                            if t == "histosys":
+                                dup["data"] = {"lo_data": [x * 0.5 for x in tgt["data"]], "hi_data": [x * 1.5 for x in tgt["data"]]}
+                            s["channels"][cj]["samples"][sj]["modifiers"].append(shared)
+                            tgt["modifiers"].append(dup)
+                            yield ("c_dup_modifier", t, "shared_later_carrier"), s
                 # (e) modifier data length != bin count
                 if t == "histosys":
                     for keys in (("lo_data",), ("hi_data",), ("lo_data", "hi_data")):
